@@ -17,7 +17,7 @@ func (f Float) WriteTerm(w io.Writer, opts *WriteOptions, _ *Env) error {
 	ew := errWriter{w: w}
 	openClose := opts.left.name == atomMinus && opts.left.specifier.class() == operatorClassPrefix && !math.Signbit(float64(f))
 
-	if openClose || (math.Signbit(float64(f)) && opts.left != operator{}) {
+	if openClose || (opts.left != (operator{}) && (math.Signbit(float64(f)) || letterDigit(opts.left.name))) {
 		_, _ = ew.Write([]byte(" "))
 	}
 
